@@ -9,6 +9,7 @@ MODULES = [
     "contracts.c_retry",
     "contracts.c_timeout",
     "contracts.c_retry2",
+    "contracts.c_poll",
 ]
 EXPECTED_MIN_OBLIGATIONS = {}
 PROPERTY_ASSUMPTIONS = {}
